@@ -48,8 +48,10 @@ pub enum Hist {
     Balanced,
     RandomTree,
     RandomTreeInterleaved,
+    /// one accumulator fed alternately by value and by register: acc += x; acc += part; ...
+    AlternateScalarMerge,
 }
-const HISTS: [Hist; 8] = [Hist::OneByOne, Hist::ByValue, Hist::FromRegister, Hist::LeftFold, Hist::RightFold, Hist::Balanced, Hist::RandomTree, Hist::RandomTreeInterleaved];
+const HISTS: [Hist; 9] = [Hist::OneByOne, Hist::ByValue, Hist::FromRegister, Hist::LeftFold, Hist::RightFold, Hist::Balanced, Hist::RandomTree, Hist::RandomTreeInterleaved, Hist::AlternateScalarMerge];
 
 #[derive(Clone, Debug, Serialize, Deserialize)]
 pub struct Case {
@@ -174,6 +176,22 @@ fn run_history<F: Fl>(c: &Case, data: &[F], ms: &mut MergeStats) -> F {
                 s += reg;
             }
             s.value()
+        }
+        Hist::AlternateScalarMerge => {
+            let mut acc = KahanSum::<F>::default();
+            let sz = if c.chunk == 0 { 4 } else { c.chunk + 1 };
+            for ch in data.chunks(sz) {
+                acc += ch[0];
+                if ch.len() > 1 {
+                    let mut part = KahanSum::<F>::default();
+                    for &x in &ch[1..] {
+                        part += x;
+                    }
+                    note_reg(&part, ms);
+                    acc += part;
+                }
+            }
+            acc.value()
         }
         _ => {
             // registers over chunks
@@ -394,7 +412,7 @@ fn make_case(seed: u64, i: u64, quick: bool) -> Case {
     let mut r = Rng::from(&[seed, 0xc08, i]);
     let f32 = i % 2 == 0;
     let family = FAMILIES[(i / 2 % 9) as usize];
-    let hist = HISTS[(i / 16 % 8) as usize];
+    let hist = HISTS[(i / 18 % 9) as usize];
     // length ladder: mostly short, some long
     let n = match r.below(100) {
         0..=39 => r.range(1, 99) as usize,
@@ -420,7 +438,7 @@ pub fn run(run: &Arc<Run>) {
     let quick = run.cfg.quick();
     run.set_rule(format!(
         "seeded histories: 8 data families (constants 1.1/0.1/1/3/0.7, same-sign uniform, log-uniform 2^±40 (f32: ±30), mixed sign, large+many small-large, alternating near-cancelling, tiny increments on a large base, dyadic) x f32/f64 x lengths 1..10^6 ({} in the thorough tier) \
-         x 8 histories (+= x; s = s + x; += KahanSum::from(x); registers over chunks of size 1,2,3,7,1000,random merged by left fold / right fold (receiver is the smaller register) / balanced tree / random tree / random tree with interleaved scalars). \
+         x 9 histories (+= x; one accumulator fed alternately by value and by register; s = s + x; += KahanSum::from(x); registers over chunks of size 1,2,3,7,1000,random merged by left fold / right fold (receiver is the smaller register) / balanced tree / random tree / random tree with interleaved scalars). \
          Oracle: exact BigInt sum; bound |value - S| <= {} u sum|x|. Naive summation runs alongside as a sensitivity witness. For += histories the sums inside Arithmetic are judged too (mean*n; variance reconstructed). \
          distinct = distinct (type, family, n, data seed, history, chunking); all non-trivial.",
         if quick { "10^6" } else { "10^7 f32 / 4*10^6 f64" },
